@@ -59,4 +59,17 @@ Qed.
 Lemma gen_is_stale_missing : forall b, gen_tm_is_stale false b = false.
 Proof. intros b. reflexivity. Qed.
 
+(* seed/config.py before_timestamp_from_options: 'time' wins over 'mtime' wins over the deltas *)
+Lemma before_timestamp_as_generated : forall rc ev,
+  before_timestamp_from_options Q rc ev =
+  gen_before_timestamp (is_some (rc_time rc))
+    (match rc_time rc with Some s => ThrAt (s * Q) | None => ThrNone end)
+    (rc_mtime rc)
+    (match ref_mtime ev with Some t => ThrAt t | None => ThrErr end)
+    (ThrAt (timestamp_before Q rc (now ev))).
+Proof.
+  intros rc ev. unfold before_timestamp_from_options, gen_before_timestamp, is_some.
+  destruct (rc_time rc); [reflexivity|]. destruct (rc_mtime rc); reflexivity.
+Qed.
+
 End WithQ.
